@@ -18,11 +18,11 @@ func init() {
 		Cases: func(tier string) int {
 			switch tier {
 			case "thorough":
-				return 2000000
+				return 6000000
 			case "race":
 				return 40000
 			}
-			return 300000
+			return 900000
 		},
 		Run:            c09Run,
 		Floor:          func(tier string) int { return 5000 },
